@@ -423,3 +423,5 @@ def extreme_axioms(A, n, is_min):
             z3.ForAll([i], z3.Implies(z3.And(i >= 0, i < n), m <= A[i] if is_min else m >= A[i]), patterns=[A[i]])]
 
 IDXOF = z3.Function("IDXOF", ARR, z3.IntSort(), z3.RealSort(), z3.IntSort())
+
+NEAR = z3.Function("NEAR", ARR, z3.IntSort(), z3.RealSort(), z3.IntSort(), z3.IntSort())   # (x, len, value, strategy code) -> index
